@@ -239,6 +239,7 @@ def run_history(rng, counters, digests, samples, violations, known, nops, world_
 
 def run_shard(spec):
     rng = random.Random("C03:%s:%s" % (spec["seed"], spec["shard"]))
+    mgrmon.install_reach_counters()
     mgrmon.install_run_events()
     mgrmon.install_toposort(None, contract_every=1)
     counters, digests, samples, violations, known = {}, set(), [], [], []
@@ -257,6 +258,7 @@ def run_shard(spec):
         if len(violations) >= 5:
             break
     counters.update({"monitor_" + k: v for k, v in mgrmon.COUNTS.items()})
+    counters["anchors_reached"] = dict(mgrmon.REACH)
     return {"evaluations": counters.get("histories", 0), "digests": sorted(digests), "samples": samples,
             "counters": counters, "violations": violations, "known": known}
 
